@@ -21,7 +21,8 @@ extern void mpt_queue_shift(MPT_STRUCT(decode_queue) *qu)
 	}
 	pos = qu->_state.data.pos;
 	len = qu->_state.data.len;
-	if (pos || len) {
+	/* keep consumed data in front of an open block as decoder scratch space */
+	if (pos || len || qu->_state._ctx) {
 		if (pos < curr) {
 			if (!(curr = pos)) {
 				return;
